@@ -38,8 +38,16 @@ def rt_type(rng, depth, top=False):
         # inlined structs must not define a key twice
         seen = set()
         ok = []
+
+        def flat_keys(f):
+            # the names a field contributes to its struct's namespace (inlines nest)
+            if "ignore" in f["tag"]:
+                return []
+            if "inline" in f["tag"] and f["ty"]["t"] == "struct":
+                return [k for x in f["ty"]["f"] for k in flat_keys(x)]
+            return [TG.field_key(f)]
         for f in fields:
-            keys = [TG.field_key(x) for x in f["ty"]["f"]] if "inline" in f["tag"] else [TG.field_key(f)]
+            keys = flat_keys(f)
             if "ignore" in f["tag"]:
                 ok.append(f); continue
             if any(k in seen for k in keys):
@@ -102,6 +110,9 @@ def gen(rng, tier):
         v = rt_value(rng, ty)
         yield {"k": "roundtrip", "ty": ty, "val": v, "opts": [], "byPtr": rng.chance(0.3), "_tag": "roundtrip", "_nt": True,
                "_sig": TG.type_sig(ty, 3)}
+
+
+fix_candidate = TG.fix_typed_candidate
 
 
 def nontrivial(case, impl):
